@@ -173,7 +173,7 @@ func c17stat(r *vlib.Rand) (os.FileMode, time.Time, string) {
 }
 
 func verifC17run(c *vlib.Ctx) {
-	c.Rule("histories of 5-40 add/replace/remove on a BasicDirectory in block-estimation mode: names 0..300 B (dense around the 1->2 byte link-length varint boundary), CIDv0 and CIDv1 with 5 codecs x 5 hash functions x digest 0..64 B, Tsize at every varint length boundary up to 2^63-1, mode {unset, 0..07777, with type bits, type bits only} x mtime {unset, neg/0/pos seconds at varint boundaries} x nanos {0,1,..,999999999}; strata: fresh (NewBasicDirectory), fromnode (reload with NewBasicDirectoryFromNode mid-history), setmode (created in links/disabled mode, switched with SetSizeEstimationMode), dynamic (DynamicDirectory with small threshold: basic phases incl. after HAMT->Basic); after every op estimatedSize vs len(GetNode().RawData()); stratum decision: DynamicDirectory in block mode whose threshold is placed within +-8 bytes of the exact block size after a planned add/replacement (replacements cross Tsize/CID/varint length classes), oracle after every op: still basic => serialized block <= threshold, switched to HAMT on this op => the basic block of the model entries (assembled with the plain dag-pb encoder) > threshold; distinct = FNV of config+ops; non-trivial = history holds a replacement that changes the link's encoded size and a removal of a present name, and >=10 comparisons were made (decision stratum: a replacement across Tsize varint classes was judged with the resulting block within 8 bytes of the threshold)")
+	c.Rule("histories of 5-40 add/replace/remove on a BasicDirectory in block-estimation mode: names 0..300 B (dense around the 1->2 byte link-length varint boundary), CIDv0 and CIDv1 with 5 codecs x 5 hash functions x digest 0..64 B, Tsize at every varint length boundary up to 2^63-1, mode {unset, 0..07777, with type bits, type bits only} x mtime {unset, neg/0/pos seconds at varint boundaries} x nanos {0,1,..,999999999}; strata: fresh (NewBasicDirectory), fromnode (reload with NewBasicDirectoryFromNode mid-history), setmode (created in links/disabled mode, switched with SetSizeEstimationMode), dynamic (DynamicDirectory with small threshold: basic phases incl. after HAMT->Basic); in the non-dynamic strata 1/7 of the adds are rejected by the dag-pb node (child cumulative size >= 2^63, or undefined CID; new names and replacements) and the history goes on; after every call, successful or failed, estimatedSize vs len(GetNode().RawData()); stratum decision: DynamicDirectory in block mode whose threshold is placed within +-8 bytes of the exact block size after a planned add/replacement (replacements cross Tsize/CID/varint length classes), oracle after every op: still basic => serialized block <= threshold, switched to HAMT on this op => the basic block of the model entries (assembled with the plain dag-pb encoder) > threshold; distinct = FNV of config+ops; non-trivial = history holds a replacement that changes the link's encoded size and a removal of a present name, and >=10 comparisons were made (decision stratum: a replacement across Tsize varint classes was judged with the resulting block within 8 bytes of the threshold)")
 	c.Cases("fresh", c.N(1200, 40000), func(k *vlib.Case) { c17history(k, "fresh") })
 	c.Cases("fromnode", c.N(700, 25000), func(k *vlib.Case) { c17history(k, "fromnode") })
 	c.Cases("setmode", c.N(400, 10000), func(k *vlib.Case) { c17history(k, "setmode") })
@@ -266,6 +266,7 @@ func c17history(k *vlib.Case, stratum string) {
 	zeroModeField := false
 	comparisons, sizeChangingReplace, removals, basicAfterHamt := 0, false, false, false
 	wasHamt := false
+	rejected := 0
 
 	stop := false // a mutating call failed: the history cannot continue
 	check := func(when string) {
@@ -359,6 +360,61 @@ func c17history(k *vlib.Case, stratum string) {
 			check("remove")
 			continue
 		}
+		if stratum != "dynamic" && r.Chance(1, 7) {
+			// An add the dag-pb node rejects (ProtoNode.AddRawLink): cumulative
+			// size above MaxInt64 (e.g. a child with two links of 2^62 each) or an
+			// undefined CID. Whatever the call does to the entries, the estimate
+			// must still equal the serialized size afterwards.
+			bad := &c17node{}
+			why := ""
+			switch r.Intn(3) {
+			case 0:
+				bad.c, _ = c17cid(r)
+				bad.sz = 1 << 63
+				why = "tsize=2^63"
+			case 1:
+				bad.c, _ = c17cid(r)
+				bad.sz = 1<<63 + r.Uint64()>>1
+				why = fmt.Sprintf("tsize=%d", bad.sz)
+			case 2:
+				bad.c = cid.Undef
+				bad.sz = c17tsize(r)
+				why = fmt.Sprintf("undefined cid, tsize=%d", bad.sz)
+			}
+			k.Logf("AddChild(rejectable) name[%dB]%s %s present=%v", len(name), c17short(name), why, present)
+			err := dir.AddChild(ctx, name, bad)
+			// the statement says nothing about atomicity: take the entries as the node has them
+			nd, gerr := dir.GetNode()
+			if gerr != nil {
+				k.Fail("getnode-error", "GetNode succeeds", "nil", gerr.Error())
+				break
+			}
+			found := false
+			for _, l := range nd.Links() {
+				if l.Name == name {
+					found = true
+					model[name] = c17entry{l.Cid, l.Size}
+				}
+			}
+			if !found {
+				if present {
+					k.C.Count("failed_replacements_that_dropped_the_old_entry", 1)
+				}
+				delete(model, name)
+			}
+			if err != nil {
+				k.C.Count("rejected_adds", 1)
+				rejected++
+			} else {
+				k.C.Count("rejectable_adds_accepted", 1)
+			}
+			if present {
+				check("failed-replace")
+			} else {
+				check("failed-add")
+			}
+			continue
+		}
 		c, cdesc := c17cid(r)
 		ts := c17tsize(r)
 		k.Logf("AddChild name[%dB]%s cid=%s(%dB) tsize=%d present=%v", len(name), c17short(name), cdesc, len(c.Bytes()), ts, present)
@@ -383,6 +439,9 @@ func c17history(k *vlib.Case, stratum string) {
 	k.C.Count("comparisons", int64(comparisons))
 	if basicAfterHamt {
 		k.C.Count("histories_compared_after_hamt_downgrade", 1)
+	}
+	if rejected > 0 {
+		k.C.Count("histories_with_rejected_add", 1)
 	}
 	if sizeChangingReplace && removals && comparisons >= 10 {
 		k.Nontrivial()
